@@ -175,7 +175,7 @@ class Gen:
             self.closed.append(n)
             e = {"k": "grp", "n": n, "x": c}
             if "names" in f and r.random() < 0.4:
-                e["name"] = "n%d" % n
+                e["named"] = True
             return e
         if x < 0.80 and "look" in f:
             return {"k": "look", "neg": r.random() < 0.45, "x": self.gen(d - 1)}
@@ -211,6 +211,7 @@ PROFILES = {
                  feats={"group", "look", "atomic", "bref", "bex", "cond", "lazy"}),
     "wild": dict(chars=["a", "b", "E", "T", "Q"], asserts=["bol", "eol", "wb", "nwb", "lwb", "rwb", "eolz"], unrestricted=True, allow_f1=True,
                  feats={"group", "look", "lookb", "atomic", "bref", "bex", "cond", "keep", "cont", "lazy", "possessive", "dotnl", "names"}),
+    "named": dict(chars=["a", "b", "c"], asserts=["eol", "wb"], feats={"group", "names", "lazy", "look", "bref"}),
     "plain": dict(chars=["a", "b", "c", "E", "N", "D"], asserts=["bol", "eol", "wb", "nwb", "mbol", "meol"],
                   feats={"group", "lazy", "dotnl", "casei", "names"}),
     "casei": dict(chars=["a", "A", "b", "B"], asserts=["bol", "eol", "wb"],
